@@ -3,7 +3,7 @@ import json
 import os
 import threading
 import time
-from lib import common, terms
+from lib import common
 from lib.common import Report, run_jobs, generate, run_tlc, tlc_ok
 from props import C15 as c15
 
